@@ -244,6 +244,13 @@ class Inliner:
 # ---------------------------------------------------------------------------
 
 def _fname(node):
+    # a method of a computed value: normalise the receiver too ((a + b).to(...) == (b + a).to(...))
+    if isinstance(node, ast.Attribute):
+        base = node
+        while isinstance(base, ast.Attribute):
+            base = base.value
+        if not isinstance(base, ast.Name):
+            return nf(node.value) + '.' + node.attr
     s = unparse(node, 0)
     for p in NUMERIC_PREFIXES:
         if s.startswith(p):
